@@ -7,7 +7,9 @@
 //   rw explore <iterations> <threads> <ops> <seed> <preferWriters 0|1|2=both> <report.ndjson> [tracefile [ntraces]]
 //        seeded random programs under seeded random schedules (every hooked operation is a pre-emption point),
 //        same monitor, deadlock detector; optionally records event traces for validation by TLC (RWTrace.tla).
-#define private public      // the harness needs the addresses of _stateMutex and of the pool's mutex (stop points); no layout change
+#ifndef VERIF_NO_PRIVATE
+# define private public      // the harness needs the addresses of _stateMutex and of the pool's mutex (stop points); no layout change
+#endif
 #include "util/ObjectPool.h"
 #include "system/ReaderWriterMutex.h"
 #undef private
@@ -178,7 +180,11 @@ static int Replay(const char * inFile, bool prefer, const char * outFile)
       int nt = 0; for (size_t i=0; i<st.size(); i++) if ((int) st[i]["t"].i() > nt) nt = (int) st[i]["t"].i();
       nb++;
       ReaderWriterMutex * m = new ReaderWriterMutex(prefer); g_m = m;
+#ifdef VERIF_NO_PRIVATE
+      const void * stateMutex = NULL; const void * poolMutex = NULL; fprintf(stderr, "replay needs the private mutex addresses\n"); return 3;
+#else
       const void * stateMutex = &m->_stateMutex; const void * poolMutex = &m->_waitConditionPool._mutex;
+#endif
       vs::Reset((unsigned) nb, vs::DIRECTED); vs::S.atomicLocks = false;
       vs::S.stopPred = [stateMutex, poolMutex](vs::LThread * me, int kind, const void * obj, long) {return (kind == vs::KIND_OP_BOUNDARY)||(kind == vs::YIELD_WC_WAIT)||((kind == vs::YIELD_MUTEX_LOCK)&&((obj == stateMutex)||(obj == poolMutex))&&(me->depth == 0));};
       vs::S.onYield = ObserveYield; vs::S.onTimeout = ObserveTimeout; vs::S.onEvent = ObserveEvent; vs::S.onResume = nullptr;
@@ -264,7 +270,12 @@ static int Explore(uint32 iters, int nt, int nops, uint32 seed0, int preferSel, 
       for (int prefer=0; prefer<2; prefer++) {
          if ((preferSel != 2)&&(preferSel != prefer)) continue;
          ReaderWriterMutex * m = new ReaderWriterMutex(prefer == 1); g_m = m;
-         vs::Reset(seed, vs::RANDOM); g_poolMutex = &m->_waitConditionPool._mutex; g_logSilent = (tf != NULL); vs::S.onResume = ObserveResume;
+         vs::Reset(seed, vs::RANDOM);
+#ifdef VERIF_NO_PRIVATE
+         g_poolMutex = NULL; g_logSilent = false; tf = NULL; vs::S.onResume = nullptr;      // no trace recording without the pool mutex address
+#else
+         g_poolMutex = &m->_waitConditionPool._mutex; g_logSilent = (tf != NULL); vs::S.onResume = ObserveResume;
+#endif
          vs::S.atomicLocks = (tf != NULL)&&(tracesWritten < ntraces);   // executions recorded for TLC keep critical sections atomic (see DESIGN C18); the others are pre-empted everywhere
          vs::S.stopPred = nullptr; vs::S.onYield = ObserveYield; vs::S.onTimeout = ObserveTimeout; vs::S.onEvent = ObserveEvent; vs::S.stickiness = (int)(gen()%3)*40;
          M.Reset(nt, prefer == 1); g_evSeen = 0; g_evOp.clear();
